@@ -19,6 +19,12 @@ SPECIAL = [
      'pub fn ncheck() -> Vec<String> { let mut out = Vec::new(); let v = 5u8; let a = X("p", Some(&v)); let b = X("q", None); let ta = twin::X("p", Some(&v)); let tb = twin::X("q", None);\n'
      '    if format!("{:?}", a) != format!("{:?}", ta) || format!("{:?}", X::<u8>::default()) != format!("{:?}", twin::X::<u8>::default()) { out.push("Debug/Default differs with lifetimes".to_string()); }\n'
      '    if (a == b) != (ta == tb) || a.cmp(&b) != ta.cmp(&tb) || b.partial_cmp(&a) != tb.partial_cmp(&ta) { out.push("comparison differs with lifetimes".to_string()); }\n    out }\n'),
+    ("assoc_projection", 'pub trait Fam { type Item; }\n#[derive(Clone, Debug, Default, PartialEq, Eq, PartialOrd, Ord, Hash)] pub struct F8; impl Fam for F8 { type Item = u8; }\n#[derive_ex::derive_ex(Clone, Debug, Default, PartialEq, Eq, PartialOrd, Ord, Hash)]\npub enum X<T: Fam, I> where I: Fam { #[default] E, One(T::Item), Two { a: Option<I::Item>, b: <T as Fam>::Item, c: Vec<T::Item> } }\n\n'
+     'pub mod twin { use super::Fam; #[derive(Clone, Debug, Default, PartialEq, Eq, PartialOrd, Ord, Hash)] pub enum X<T: Fam, I> where I: Fam { #[default] E, One(T::Item), Two { a: Option<I::Item>, b: <T as Fam>::Item, c: Vec<T::Item> } } }\n'
+     'pub fn ncheck() -> Vec<String> { let mut out = Vec::new(); let vs: Vec<(X<F8, F8>, twin::X<F8, F8>)> = vec![(X::E, twin::X::E), (X::One(3), twin::X::One(3)), (X::Two { a: Some(1), b: 2, c: vec![3] }, twin::X::Two { a: Some(1), b: 2, c: vec![3] }), (X::Two { a: None, b: 2, c: vec![] }, twin::X::Two { a: None, b: 2, c: vec![] })];\n'
+     '    for (a, t) in vs.iter() { if format!("{:?}", a) != format!("{:?}", t) || format!("{:#?}", a.clone()) != format!("{:#?}", t.clone()) { out.push(format!("Debug/Clone differs: {:?} vs {:?}", a, t)); } }\n'
+     '    for (a, t) in vs.iter() { for (b, u) in vs.iter() { if a.cmp(b) != t.cmp(u) || (a == b) != (t == u) || a.partial_cmp(b) != t.partial_cmp(u) { out.push("comparison differs".to_string()); } } }\n'
+     '    if format!("{:?}", X::<F8, F8>::default()) != format!("{:?}", twin::X::<F8, F8>::default()) { out.push("Default differs".to_string()); }\n    out }\n'),
     ("raw_idents", '#[derive_ex::derive_ex(Clone, Debug, Default, PartialEq, Eq, PartialOrd, Ord, Hash)]\npub struct r#struct { pub r#type: u8, pub r#fn: bool }\n\npub mod twin { #[derive(Clone, Debug, Default, PartialEq, Eq, PartialOrd, Ord, Hash)] pub struct r#struct { pub r#type: u8, pub r#fn: bool } }\n'
      'pub fn ncheck() -> Vec<String> { let mut out = Vec::new(); let a = r#struct { r#type: 1, r#fn: true }; let ta = twin::r#struct { r#type: 1, r#fn: true };\n'
      '    for (d, t) in [(format!("{:?}", a), format!("{:?}", ta)), (format!("{:#?}", a), format!("{:#?}", ta))] { if d != t { out.push(format!("Debug differs for raw identifiers: {:?} vs {:?}", d, t)); } }\n    out }\n'),
